@@ -26,7 +26,7 @@ Lemma al_dk :
 Proof.
   apply syntax_mutind; intros;
     cbn [al_expr al_exprs al_stat al_elifs al_block dk_expr dk_exprs dk_stat dk_elifs dk_block];
-    rewrite ?falses_al_names; congruence.
+    rewrite ?falses_al_names; cbn [falses map]; congruence.
 Qed.
 
 Lemma al_cnt_expr : forall e r k, cnt_expr (al_expr d y r e k) = cnt_expr e.
@@ -134,6 +134,7 @@ Proof.
   intros s r k. destruct s; cbn [al_stat env_after]; try reflexivity.
   - symmetry. apply ren_obind.
   - cbn [ren map snd]. destruct (Nat.eqb k d); reflexivity.
+  - cbn [obind ren map snd]. destruct (Nat.eqb k d); reflexivity.
 Qed.
 
 Lemma ren_benv_after : forall b r k, benv_after (ren r) (al_block d y r b k) k = ren (benv_after r b k).
@@ -150,6 +151,7 @@ Proof.
   intros s r k Hok Hn. destruct s; cbn [env_after names_stat] in *; try exact Hok.
   - apply not_in_app in Hn. apply env_ok_obind; [exact Hok|apply Hn].
   - apply env_ok_cons; [exact Hok|]. intros E. apply Hn. left. symmetry. exact E.
+  - cbn [obind]. apply env_ok_cons; [exact Hok|]. intros E. apply Hn. left. symmetry. exact E.
 Qed.
 
 Lemma env_ok_bafter : forall b r k, env_ok r -> ~ In y (names_block b) -> env_ok (benv_after r b k).
@@ -210,6 +212,10 @@ Proof.
   - (* EFun *) intros ps b IHb r k Hok Hn Hs. cbn [al_expr ord_expr names_expr dk_expr] in *.
     split_names. split_noself. unfold olen. rewrite al_names_length, <- ren_obind.
     apply IHb; [apply env_ok_obind; assumption|assumption|assumption].
+  - (* EStr *) reflexivity.
+  - (* ETable *) intros es IHes r k Hok Hn Hs. cbn [al_expr ord_expr names_expr dk_expr] in *. apply IHes; assumption.
+  - (* EMeth *) intros e IHe m args IHa r k Hok Hn Hs. cbn [al_expr ord_expr names_expr dk_expr] in *.
+    split_names. split_noself. rewrite al_cnt_expr. f_equal; [apply IHe|apply IHa]; assumption.
   - (* ENil *) reflexivity.
   - (* ECons *) intros e IHe es IHes r k Hok Hn Hs. cbn [al_exprs ord_exprs names_exprs dk_exprs] in *.
     split_names. split_noself. rewrite al_cnt_expr. f_equal; [apply IHe|apply IHes]; assumption.
@@ -256,6 +262,10 @@ Proof.
   - (* SForIn *) intros xs es IHes b IHb r k Hok Hn Hs. cbn [al_stat ord_stat names_stat dk_stat] in *.
     split_names. split_noself. unfold olen. rewrite al_names_length, al_cnt_exprs, <- ren_obind.
     f_equal; [apply IHes; assumption|]. apply IHb; [apply env_ok_obind; assumption|assumption|assumption].
+  - (* SLabel *) reflexivity.
+  - (* SGoto *) reflexivity.
+  - (* SLocalAttr *) intros x cl es IHes r k Hok Hn Hs. cbn [al_stat ord_stat names_stat dk_stat] in *.
+    split_names. split_noself. unfold olen in *. cbn [List.length] in *. apply IHes; assumption.
   - (* ElEnd *) reflexivity.
   - (* ElElse *) intros b IHb r k Hok Hn Hs. cbn [al_elifs ord_elifs names_elifs dk_elifs] in *. apply IHb; assumption.
   - (* ElIf *) intros c IHc b IHb t IHt r k Hok Hn Hs. cbn [al_elifs ord_elifs names_elifs dk_elifs] in *.
